@@ -58,10 +58,17 @@ FreeC17Clauses(rec) ==
   \cup If(rec.head # rec.headWant, "C17_store_equals_a_sequential_execution_of_the_same_appends")
   \cup If(rec.tailBad # 0, "C17_gap_free_chain_after_racing_tail_delete")
 
+\* C12 — a store filled, wiped as a whole and filled again with a shorter chain: Height follows Head down, a reader above it waits
+RefillClauses(rec) ==
+       If(rec.refillEarly # "none", "C12_blocks_for_a_height_above_the_current_Height")
+  \cup If(rec.refillFinal # "ok", "C12_wakes_once_the_header_is_stored")
+  \cup If(rec.height # rec.head, "C12_Height_is_the_height_of_Head_after_a_refill")
+
 Kind(rec) == IF "kind" \in DOMAIN rec THEN rec.kind ELSE ""
 Clauses(rec) ==
   IF Kind(rec) = "stress" THEN StressClauses(rec)
   ELSE IF Kind(rec) = "stop" THEN StopClauses(rec)
+  ELSE IF Kind(rec) = "refill" THEN RefillClauses(rec)
   ELSE UNION {ReaderClauses(rec, rec.readers[i]) : i \in DOMAIN rec.readers}
   \cup If(~NonDecreasing(rec.headseq), "C17_Head_never_decreases")
   \cup If(~NonDecreasing(rec.hsseq), "C17_Height_never_decreases")
@@ -69,11 +76,11 @@ Clauses(rec) ==
 
 \* which readers a failing clause belongs to (reader id -> its failing clauses), for the cause signature
 FailingReaders(rec) ==
-  IF Kind(rec) \in {"stress", "stop"} THEN <<>>
+  IF Kind(rec) \in {"stress", "stop", "refill"} THEN <<>>
   ELSE [i \in DOMAIN rec.readers |-> ReaderClauses(rec, rec.readers[i])]
 
 Late(rec) ==
-  IF Kind(rec) \in {"stress", "stop"} THEN <<>>
+  IF Kind(rec) \in {"stress", "stop", "refill"} THEN <<>>
   ELSE [i \in DOMAIN rec.readers |-> rec.readers[i].subAfterNotify]
 
 Init == l = 1
